@@ -476,11 +476,25 @@ class Interp:
         g = ge.generators[0]
         src = self.eval(g.iter, fr)
         kind, payload = self.host.iterate(src, g.iter)
+        which = node.func.id
+        if kind == "abstract" and which in ("any", "all"):
+            # a quantifier over unbounded data, decided on a generic element x:  all(P(x) for x in S if C(x)) is true
+            # when every x with C(x) has P(x).  The path fixes what the generic element is like; the result is the one
+            # the quantifier has when *every* element is like that (all) / *some* element is like that (any).  The
+            # event lets rules see which elements were tested with what outcome.
+            cfr = Frame(fr.fi, fr.mod, parent=fr)
+            cfr.self_av = fr.self_av
+            el = self.host.make_elem(payload, g.iter)
+            self.assign_target(g.target, el.target, cfr)
+            passed = all(self.truth(self.eval(c, cfr), c) for c in g.ifs)
+            v = self.eval(ge.elt, cfr) if passed else None
+            t = self.truth(v, ge.elt) if passed else (which == "all")
+            self.emit(Ev("quantifier", src=payload, elem=el, value=v, info=(which, passed, t), site=self.site(node, fr)))
+            return TRUE if t else FALSE
         if kind != "concrete":
             return None
         cfr = Frame(fr.fi, fr.mod, parent=fr)
         cfr.self_av = fr.self_av
-        which = node.func.id
         for item in payload:
             self.assign_target(g.target, item, cfr)
             if not all(self.truth(self.eval(c, cfr), c) for c in g.ifs):
